@@ -39,8 +39,17 @@ type Config struct {
 	// Reconnect: reopen a session after a close, ReconnectAfter later.
 	Reconnect      bool          `json:"reconnect"`
 	ReconnectAfter time.Duration `json:"reconnect_after"`
-	Heartbeat      time.Duration `json:"heartbeat"` // 0 = no OnCron
-	MaxMsgLen      int           `json:"max_msg_len"`
+	// GettyOrder: reconnect in the order dubbo-getty 1.5.0 does it. A session
+	// that ends calls client.reConnect() from inside session.stop(): when the
+	// application closes a live session, the successor is dialled and its
+	// OnOpen runs on the caller's goroutine, inside Close(); when the peer
+	// closes (or a read fails), the read goroutine dials until the server is
+	// back (ReconnectAfter), runs OnOpen of the successor, and only then
+	// OnError / OnClose of the old session. Without it: OnError / OnClose
+	// first, the successor ReconnectAfter later.
+	GettyOrder bool          `json:"getty_order,omitempty"`
+	Heartbeat  time.Duration `json:"heartbeat"` // 0 = no OnCron
+	MaxMsgLen  int           `json:"max_msg_len"`
 	// ParkWrites makes the return of WritePkg a scheduling point of its own.
 	ParkWrites bool `json:"park_writes"`
 }
@@ -73,9 +82,10 @@ type Net struct {
 	// WriteHook, when set, is consulted for every WritePkg (body code of the
 	// frame); a non-nil error is returned to the client as a write error.
 	WriteHook func(sess int, code int) error
-	// WriteHookFrame: the same with the decoded frame (nil when undecodable)
+	// WriteHookFrame: the same with the decoded frame (not called when
+	// undecodable; Body is nil for heart-beats)
 	WriteHookFrame func(sess int, f *simtc.Frame) error
-	SpinLimit int
+	SpinLimit      int
 	// InlineRead: dispatch all buffered packages back to back (C13).
 	InlineRead bool
 }
@@ -346,7 +356,7 @@ func (s *Session) closeInternal(why string, fromPeer bool) {
 	}
 	n := s.net
 	n.Sim.Logf("NET close s%d (%s)", s.id, why)
-	n.Sim.Post(fmt.Sprintf("net-onclose|%03d", s.id), 0, "", func() {
+	fire := func() {
 		s.mu.Lock()
 		if s.onClosed {
 			s.mu.Unlock()
@@ -359,11 +369,29 @@ func (s *Session) closeInternal(why string, fromPeer bool) {
 			n.Listener.OnError(s, err)
 		}
 		n.Listener.OnClose(s)
+	}
+	after := n.Cfg.ReconnectAfter
+	if after <= 0 {
+		after = 10 * time.Second
+	}
+	if n.Cfg.Reconnect && n.Cfg.GettyOrder {
+		if why == "client-close" {
+			// reConnect() inside Close(), on the caller's goroutine
+			n.Sim.Probe("net-reconnect-inside-close")
+			n.Open(s.remote)
+			n.Sim.Post(fmt.Sprintf("net-onclose|%03d", s.id), 0, "", fire)
+			return
+		}
+		n.Sim.Probe("net-successor-opened-before-onclose")
+		n.Sim.Post(fmt.Sprintf("net-reconnect|%03d", s.id), after, "", func() {
+			n.Open(s.remote)
+			fire()
+		})
+		return
+	}
+	n.Sim.Post(fmt.Sprintf("net-onclose|%03d", s.id), 0, "", func() {
+		fire()
 		if n.Cfg.Reconnect {
-			after := n.Cfg.ReconnectAfter
-			if after <= 0 {
-				after = 10 * time.Second
-			}
 			n.Sim.Post(fmt.Sprintf("net-reconnect|%03d", s.id), after, "", func() { n.Open(s.remote) })
 		}
 	})
@@ -448,9 +476,11 @@ func (s *Session) WritePkg(pkg interface{}, timeout time.Duration) (total int, s
 	// matching); undecodable frames are reported when delivered.
 	code := 0
 	var frame *simtc.Frame
-	if f, _, derr := simtc.DecodeFrame(b); derr == nil && f != nil && f.Body != nil {
-		code = f.Body.Code
-		frame = f
+	if f, _, derr := simtc.DecodeFrame(b); derr == nil && f != nil {
+		frame = f // (heart-beats have no body)
+		if f.Body != nil {
+			code = f.Body.Code
+		}
 	}
 	n.mu.Lock()
 	n.writes[0]++
